@@ -54,8 +54,16 @@ fn field_attrs(f: &Field) -> String {
         Ty::NilFns => {
             // the order of the keys, and their distribution over several #[cbor(..)] attributes, must not matter
             let mut keys = vec!["encode_with = \"crate::rt::nil_str::encode\"", "decode_with = \"crate::rt::nil_str::decode\"", "is_nil = \"crate::rt::nil_str::is_nil\"", "nil = \"crate::rt::nil_str::nil\"", "cbor_len = \"crate::rt::nil_str::cbor_len\""];
-            let perm = (f.idx as usize * 7 + f.name.len()) % 6;
-            match perm { 1 => keys.swap(0, 1), 2 => { keys.swap(0, 1); keys.swap(2, 3) } 3 => keys = vec![keys[1], keys[3], keys[0], keys[2], keys[4]], 4 => keys = vec![keys[3], keys[1], keys[4], keys[2], keys[0]], 5 => keys.reverse(), _ => {} }
+            // one of the 120 orders, chosen by the field (Lehmer code of a small hash)
+            let mut code = (f.idx as usize).wrapping_mul(31).wrapping_add(f.name.len() * 7 + f.name.bytes().map(|b| b as usize).sum::<usize>()) % 120;
+            let mut pool = keys.clone();
+            keys.clear();
+            for radix in (1 ..= 5).rev() { keys.push(pool.remove(code % radix)); code /= radix }
+            // the macros accept `is_nil` / `nil` only once their `encode_with` / `decode_with` is known (other orders are
+            // compile errors, i.e. not definitions "accepted by the derive macros"): keep those two pairs in that order
+            let pos = |ks: &Vec<&str>, p: &str| ks.iter().position(|k| k.starts_with(p)).unwrap();
+            let (a, b) = (pos(&keys, "encode_with"), pos(&keys, "is_nil")); if b < a { keys.swap(a, b) }
+            let (a, b) = (pos(&keys, "decode_with"), pos(&keys, "nil =")); if b < a { keys.swap(a, b) }
             if (f.idx as usize + f.name.len()) % 3 == 0 {
                 // split: the first two keys in an attribute of their own, emitted before the rest
                 write!(s, "#[cbor({})] ", keys[.. 2].join(", ")).unwrap();
